@@ -20,10 +20,15 @@ Split == 3600000
 
 Tenants == {<<"a">>, <<"a", ":", "b">>, <<"a", ":">>, <<"a", ":", "[]">>}
 Queries == {<<"c">>, <<"b", ":", "c">>, <<":", "c">>, <<"c", ":", "1000">>, <<"c", ":", "1000", ":", "3600000">>}
-Engines == {<<>>, <<"e">>, <<"e", ":", "true">>, <<"e", ":", "false", ":">>}
-ReplicaLists == {<<>>, <<<<"r">>>>, <<<<"r">>, <<"s">>>>, <<<<"r", ",", "s">>>>, <<<<"false", ":">>>>, <<<<"r", ":">>>>}
-Labels == {<<>>, <<"c">>, <<"b", ":", "c">>, <<"c", ":", "[]">>}
-MatcherLists == {<<>>, <<"a=\"b\"">>, <<"a=\"b:c\"">>, <<"a=\"b\"", "c=\"d\"">>}
+(* the escape character itself: alone, trailing, doubled, in front of a separator *)
+Engines == {<<>>, <<"e">>, <<"e", ":", "true">>, <<"e", ":", "false", ":">>,
+            <<"e", "\\">>, <<"e", "\\", "\\">>, <<"e", "\\", ":", "true">>, <<"\\">>}
+ReplicaLists == {<<>>, <<<<"r">>>>, <<<<"r">>, <<"s">>>>, <<<<"r", ",", "s">>>>, <<<<"false", ":">>>>, <<<<"r", ":">>>>,
+                 <<<<"r", "\\">>, <<"s">>>>, <<<<"r", "\\">>>>, <<<<"r", "\\", "\\">>, <<"s">>>>,
+                 <<<<"r", "\\", ",", "s">>>>, <<<<"\\">>, <<"s">>>>, <<<<"\\", ",", "s">>>>}
+Labels == {<<>>, <<"c">>, <<"b", ":", "c">>, <<"c", ":", "[]">>, <<"c", "\\">>, <<"c", "\\", ":", "[]">>}
+(* a matcher value ending in a backslash is printed Go-quoted: a="b\\\\" *)
+MatcherLists == {<<>>, <<"a=\"b\"">>, <<"a=\"b:c\"">>, <<"a=\"b\"", "c=\"d\"">>, <<"a=\"b\\\\\"">>}
 ShardOff == [on |-> FALSE, total |-> 0, index |-> 0, by |-> FALSE, labels |-> <<>>]
 Shards == {ShardOff,
            [on |-> TRUE, total |-> 2, index |-> 0, by |-> TRUE, labels |-> <<"x">>],
@@ -47,9 +52,11 @@ SliceTyped == { [BaseRange EXCEPT !.step = s, !.msr = m, !.lookback = lb, !.shar
                     s \in {1000, 2000}, m \in {0, 10000, 300000, 3600000}, lb \in {0, 1000}, sh \in Shards,
                     st \in {0, Split}, an \in BOOLEAN }
 SliceQueryTail == { [BaseRange EXCEPT !.query = q, !.engine = e, !.replicas = rl, !.shard = sh] :
-                    q \in Queries, e \in Engines, rl \in ReplicaLists, sh \in {ShardOff, CHOOSE x \in Shards : x.on} }
+                    q \in Queries, e \in {<<>>, <<"e", ":", "true">>, <<"e", "\\">>},
+                    rl \in {<<>>, <<<<"r">>>>, <<<<"r", "\\">>, <<"s">>>>, <<<<"r", ",", "s">>>>},
+                    sh \in {ShardOff, CHOOSE x \in Shards : x.on} }
 SliceUncached == { [BaseRange EXCEPT !.dedup = d, !.nostore = ns, !.storem = sm, !.query = q] :
-                    d \in BOOLEAN, ns \in BOOLEAN, sm \in {<<>>, <<"a=\"b\"">>}, q \in {<<"c">>, <<"b", ":", "c">>} }
+                    d \in BOOLEAN, ns \in BOOLEAN, sm \in {<<>>, <<"a=\"b\"">>, <<"a=\"b\\\\\"">>}, q \in {<<"c">>, <<"b", ":", "c">>} }
 BigRange == { [BaseRange EXCEPT !.tenant = t, !.query = q, !.engine = e, !.partial = p, !.replicas = rl, !.step = s] :
                     t \in Tenants, q \in Queries, e \in Engines, p \in BOOLEAN, rl \in ReplicaLists, s \in {1000, 2000} }
 RangeReqs == SliceTenantQuery \cup SliceTail \cup SliceTyped \cup SliceQueryTail \cup SliceUncached
@@ -66,6 +73,7 @@ RS == SetToSeq(AllReqs)
 N == Len(RS)
 KeyTab == [i \in 1..N |-> Key(RS[i], TRUE)]
 LegacyTab == [i \in 1..N |-> Key(RS[i], FALSE)]
+LazyTab == [i \in 1..N |-> KeyMode(RS[i], "lazy")]
 
 (* ---- the builder, field by field ---- *)
 VARIABLES ri, pos, key
@@ -113,11 +121,17 @@ CasePairs == { p \in SliceIdx \X SliceIdx :
                  /\ p[1] < p[2]
                  /\ SlotTab[p[1]] = SlotTab[p[2]]
                  /\ \/ LegacyTab[p[1]] = LegacyTab[p[2]]
+                    \/ LazyTab[p[1]] = LazyTab[p[2]]
                     \/ KeyTab[p[1]] = KeyTab[p[2]]
                     \/ (OneOrNoDiff(p[1], p[2]) /\ Cardinality(DiffFields(RS[p[1]], RS[p[2]])) = 1) }
 (* the domain bites: the format before the fix had collisions outside the known-finding classes *)
 LegacyCollisions == { p \in CasePairs : /\ LegacyTab[p[1]] = LegacyTab[p[2]]
                                          /\ MustDiffer(RS[p[1]], RS[p[2]]) /\ KnownFinding(RS[p[1]], RS[p[2]]) = "" }
 ASSUME LegacyCollisions # {}
+(* ... and so has the "lazy" shortcut (escape character not escaped in values without separators): the   *)
+(* alphabet contains the escape character where it matters                                              *)
+LazyCollisions == { p \in CasePairs : /\ LazyTab[p[1]] = LazyTab[p[2]]
+                                       /\ MustDiffer(RS[p[1]], RS[p[2]]) /\ KnownFinding(RS[p[1]], RS[p[2]]) = "" }
+ASSUME LazyCollisions # {}
 ASSUME ndJsonSerialize(CasesFile, SetToSeq({ [a |-> RS[p[1]], b |-> RS[p[2]]] : p \in CasePairs }))
 =============================================================================
